@@ -234,7 +234,7 @@ Section Skeleton.
   Lemma tables_good : good_state (tables C).
   Proof.
     intros a t H u ds d Hin Hd. destruct (tables_from_tbls _ _ _ _ _ H) as (k & xs & ->).
-    apply (tbl_from_rows C) in Hin as (i & x & _ & _ & -> & _). apply (descs_in C) in Hd as (b & s & _ & _ & ->). apply dtext_good.
+    apply (tbl_from_rows C) in Hin as (i & x & _ & _ & -> & _). apply (descs_in C W) in Hd as (b & s & _ & _ & ->). apply dtext_good.
   Qed.
 
   (** what the theorem says about the fine graph [m2] *)
